@@ -19,7 +19,8 @@ RULE = ('lists of 1-4 scripts x initial cache x limits. Families: (a) Hypothesis
         'in both directions), totality (never raises). non-trivial = >= 2 scripts, an earlier script contains RETURN / '
         'DEF / cache write / CALL / EVAL or leaves >= 2 items, and the last script has a control-flow construct or >= 3 '
         'instructions; distinct = digest of (scripts, cache, limits).'
-        " Added oracles: the statement executed on the independent reference interpreter vt/refvm.py (verdict compared whenever the reference does not stop at an ambiguity); every case re-run with a 'returned' entry added to the initial cache (verdict must not change); task optimised: verdicts of ~400 generated lists and builder pairs compared with a fresh interpreter started with python -O; task errors: a failing program from the typed instruction generator (>= 6 exception types) at a random position. Script lists whose work explodes (> 60 000 tape reads) are skipped and counted.")
+        " Added oracles: the statement executed on the independent reference interpreter vt/refvm.py (verdict compared whenever the reference does not stop at an ambiguity); every case re-run with a 'returned' entry added to the initial cache (verdict must not change); task optimised: verdicts of ~400 generated lists and builder pairs compared with a fresh interpreter started with python -O; task errors: a failing program from the typed instruction generator (>= 6 exception types) at a random position. Script lists whose work explodes (> 60 000 tape reads) are skipped and counted."
+        ' Task recursion: locks whose function calls itself under witness-supplied guards, failures caught by an outer activation of the same function (model oracle).')
 ASSUMPTIONS = ['the hand composition reuses the implementation of single-script execution (run_script / run_tape); only '
                'the sequencing across scripts is independent', 'locks used for the sentinel oracle contain RETURN only '
                'inside DEF bodies or pushed-and-evaluated scripts']
@@ -545,7 +546,36 @@ def task_errors(ctx):
     hyp.drive(case(), one, ctx.n(6000, 300000), ctx.seed + 3)
 
 
+def task_recursion(ctx):
+    """locks whose function calls itself under witness-supplied guards with failures caught by an outer activation (the
+    C06 recursion family): the lock still runs from its first instruction to its own end"""
+    from vt.props import c06
+    op, push, blen = c06.op, c06.push, c06.blen
+    drain = op('OP_DEPTH') + op('OP_LOOP') + blen(op('OP_POP0') * 2 + op('OP_DEPTH')) + op('OP_POP0') * 2 + op('OP_DEPTH') + op('OP_POP0')
+
+    @st.composite
+    def case(draw):
+        code = draw(c06.recursion_case())[:-1]          # without the trailing DEPTH
+        ndef = 4 + int.from_bytes(code[2:4], 'big')
+        fn, rest = code[:ndef], code[ndef:]
+        # the guards come from the witness, the function and its call are the lock; verdict = "the top item is Z" after the call
+        i = 0
+        while i < len(rest) and rest[i] in (C['OP_TRUE'], C['OP_FALSE']):
+            i += 1
+        witness, call = rest[:i], rest[i:]
+        lock = (fn + call + push(b'Z') + op('OP_EQUAL') + bytes([C['OP_WRITE_CACHE'], 1]) + b'r' + b'\x01' + drain +
+                bytes([C['OP_READ_CACHE'], 1]) + b'r')
+        extra = draw(st.sampled_from([b'', b'', bytes([C['OP_TRUE']]), bytes([C['OP_FALSE']])]))
+        return [witness + extra, lock], draw(st.sampled_from([(1024, 1024, 128), (1024, 1024, 128), (64, 64, 6), (1024, 1024, 3)]))
+
+    def one(t):
+        scripts, lim = t
+        _one(ctx, scripts, {}, lim, None, {'check': 'auth', 'scripts': scripts, 'cache': {}, 'limits': list(lim)}, True)
+    hyp.drive(case(), one, ctx.n(2500, 100000), ctx.seed + 6)
+
+
 TASKS = {
+    'recursion': (task_recursion, 2, 8),
     'optimised': (task_optimised, 1, 4),
     'errors': (task_errors, 8, 16),
     'structured': (task_structured, 14, 16),
